@@ -22,28 +22,28 @@ import verif
 UNIVERSES = {
     # quick
     "q_layout":  (5, [2], "token layouts: <=3 instances x <=2 tokens on 4 positions (0,1 | gap | 2^32-2,2^32-1), 1 tokenless, zones 0..2, ACTIVE/JOINING"),
-    "q_health":  (4, [1], "states x health x zones: 3 single-token instances on 3 positions, 4 states x {edge,stale} heartbeat, zones 0..3"),
+    "q_health":  (4, [1], "states x health x zones: 3 single-token instances on 3 positions, {ACTIVE,LEAVING,PENDING} x {edge,stale} heartbeat, zones 0..3 (JOINING/LEFT: q_layout, q_steps, q_hb)"),
     "q_hb":      (4, [1], "all three heartbeat classes x {ACTIVE,LEFT}, 2 instances, tokenless allowed"),
     "q_steps":   (4, [1], "AddInstance and RemoveInstance steps in every relative token position (ids not ordered by token)"),
     "q_zones":   (5, [2], "C02: 4 single-token instances, zones 0..4 (fewer, equal, more than RF 1..4), ACTIVE/JOINING"),
     "q_stale":   (4, [1], "C02: unhealthy non-extending instances: ACTIVE x {edge,stale}, zones 0..3, tokenless allowed"),
     # thorough
-    "t_layout":  (7, [3], "token layouts: <=3 instances x <=2 tokens on 6 positions (0,1,2 | gap | 2^32-3..2^32-1)"),
+    "t_layout":  (6, [3], "token layouts: <=3 instances x <=2 tokens on 5 positions (0,1,2 | gap | 2^32-2,2^32-1), 1 tokenless, zones 0..2, ACTIVE/JOINING"),
     "t_health":  (4, [1], "states x health x zones with a tokenless instance"),
-    "t_hb":      (4, [1], "all five states x all three heartbeat classes, zones 0..1"),
+    "t_hb":      (4, [1], "all five states x all three heartbeat classes, 3 single-token instances, no zones"),
     "t_active":  (9, [4], "successor/boundary: <=4 instances x <=2 tokens on 8 positions, everything ACTIVE, RF 1..5"),
-    "t_steps":   (5, [2], "AddInstance and RemoveInstance steps, <=2 tokens per instance, 4 positions"),
+    "t_steps":   (5, [2], "AddInstance and RemoveInstance steps in every relative token position, 4 positions"),
     "t_z5ext":   (6, [3], "C02: 5 single-token instances, zones 0..5, RF 1..5, ACTIVE/JOINING"),
     "t_z5stale": (6, [3], "C02: 5 single-token instances, zones 0..5, RF 1..5, ACTIVE x {edge,stale}"),
 }
 
 TIERS = {
-    ("c01", "quick"):    dict(cfgs=["q_layout", "q_health", "q_hb", "q_steps"], rings=80, keys=8),
-    ("c01", "thorough"): dict(cfgs=["t_layout", "t_health", "t_hb", "t_active", "t_steps", "q_layout", "q_health", "q_hb", "q_steps", "q_zones"],
-                              rings=1000, keys=10),
-    ("c02", "quick"):    dict(cfgs=["q_zones", "q_stale", "q_hb"], rings=80, keys=2),
-    ("c02", "thorough"): dict(cfgs=["t_z5ext", "t_z5stale", "t_health", "q_zones", "q_stale", "q_health", "q_hb", "q_steps"],
-                              rings=1000, keys=2),
+    ("c01", "quick"):    dict(cfgs=["q_layout", "q_health", "q_hb", "q_steps"], rings=60, keys=8),
+    ("c01", "thorough"): dict(cfgs=["t_layout", "t_health", "t_hb", "t_active", "t_steps", "q_hb", "q_zones"],
+                              rings=600, keys=10),
+    ("c02", "quick"):    dict(cfgs=["q_zones", "q_stale", "q_hb"], rings=60, keys=2),
+    ("c02", "thorough"): dict(cfgs=["t_z5ext", "t_z5stale", "t_health", "q_zones", "q_stale", "q_hb"],
+                              rings=600, keys=2),
 }
 
 ASSUMPTIONS = [
